@@ -14,11 +14,41 @@ def concrete_self(d: Decl):
     return d.name + ('<i32>' if d.generics else '')
 
 
-def ref_module(d: Decl) -> str:
+def expected_variants(d: Decl):
+    if d.custom_validation is not None or not d.validators:
+        return None
+    out = []
+    for v in d.validators:
+        if VARIANT[v.kind] not in out:
+            out.append(VARIANT[v.kind])
+    return out
+
+
+def error_enum_shape_problem(d: Decl, dump_text: str):
+    """C07/C02: the generated error enum must have exactly one variant per declared validator.
+    Read from the dumped expansion; returns None or a description of the mismatch."""
+    import re
+    exp = expected_variants(d)
+    if exp is None:
+        return None
+    m = re.search(r'pub enum %s\s*\{(.*?)\}' % re.escape(d.error_type), dump_text, re.S)
+    if not m:
+        return 'error enum %s not found in the expansion' % d.error_type
+    got = [x.strip() for x in re.sub(r'#\[[^\]]*\]', '', m.group(1)).split(',') if x.strip()]
+    if sorted(got) != sorted(exp):
+        return 'error enum %s has variants %s but the declaration writes validators needing %s' % (d.error_type, got, exp)
+    return None
+
+
+def ref_module(d: Decl, string_errors=False) -> str:
     """`pub mod ref_<id>`: sanitize / validate / try_new over the concrete inner type.
-    Expects the declaration to live in `mod d_<id>` of the same crate."""
+    Expects the declaration to live in `mod d_<id>` of the same crate.
+    string_errors: errors are variant NAMES (strings), so the module compiles whatever the shape
+    of the generated error enum is (used by the witness search)."""
     I = concrete_inner(d)
     E = d.error_type
+    if string_errors:
+        return _ref_module_strings(d)
     out = ['pub mod ref_%s {\n    #![allow(unused_imports, unused_variables, clippy::all)]\n    use super::*;\n    use super::d_%s::*;\n' % (d.id, d.id),
            '    pub type Inner = %s;\n' % I]
     out.append('    pub fn sanitize(x: Inner) -> Inner { %s }\n' % d.ref_sanitize_expr('x'))
@@ -41,5 +71,30 @@ def ref_module(d: Decl) -> str:
         out.append('    pub fn valid(x: &Inner) -> bool { validate(x).is_ok() }\n')
     else:
         out.append('    pub fn valid(x: &Inner) -> bool { true }\n')
+    out.append('}\n')
+    return ''.join(out)
+
+
+def _ref_module_strings(d: Decl) -> str:
+    I = concrete_inner(d)
+    out = ['pub mod ref_%s {\n    #![allow(unused_imports, unused_variables, clippy::all)]\n    use super::*;\n    use super::d_%s::*;\n' % (d.id, d.id),
+           '    pub type Inner = %s;\n    pub type Error = String;\n' % I]
+    out.append('    pub fn sanitize(x: Inner) -> Inner { %s }\n' % d.ref_sanitize_expr('x'))
+    if d.has_validation:
+        if d.custom_validation is not None:
+            body = '%s(x).map_err(|e| format!("{:?}", e))' % d.custom_validation.name
+        else:
+            body = ''
+            if d.family in ('int', 'float'):
+                body += 'let v = *x; '
+                x = 'v'
+            else:
+                x = 'x'
+            for v in d.validators:
+                body += 'if !%s { return Err("%s".to_string()); } ' % (d.ref_accepts(v, x), VARIANT[v.kind])
+            body += 'Ok(())'
+        out.append('    pub fn validate(x: &Inner) -> Result<(), Error> { %s }\n' % body)
+        out.append('    pub fn try_new(raw: Inner) -> Result<Inner, Error> { let s = sanitize(raw); validate(&s)?; Ok(s) }\n')
+    out.append('    pub fn show(r: &Result<Inner, Error>) -> String { match r { Ok(v) => format!("Ok({:?})", v), Err(e) => format!("Err({})", e) } }\n')
     out.append('}\n')
     return ''.join(out)
